@@ -27,6 +27,8 @@ func TestDrive(t *testing.T) {
 		switch s.Kind {
 		case "RL":
 			DriveRL(t, s, tw)
+		case "PFM":
+			DrivePFM(t, s, tw)
 		default:
 			t.Fatalf("unknown schedule kind %q", s.Kind)
 		}
